@@ -19,7 +19,7 @@ func univFor(kind string) univ {
 	} else {
 		u.buckets = []string{singleBucketName, "bkb"}
 	}
-	if kind == "mem" || kind == "bolt" {
+	if kind == "mem" || kind == "bolt" || kind == "boltbin" {
 		u.keys = []string{"a", "a/b", "a/c", "d"}
 	} else {
 		// fs backends: conflict-free key domain (no key is a path-prefix of another)
